@@ -102,7 +102,10 @@ def _cor_commit_iff(cfg, i, path):
     can = _can_commit(cfg, path)
     n = names(path.ghost)
     if can:
-        return n.count('commit') == 1 and 'rollback' not in n
+        # exactly one commit; a rollback is legitimate only as the cleanup AFTER that commit failed (several databases: the committed ones are still to be closed)
+        if n.count('commit') != 1: return False
+        if 'rollback' not in n: return True
+        return not ok(path.ghost, 'commit') and n.index('rollback') > n.index('commit')
     return 'commit' not in n and n.count('rollback') == 1
 
 
